@@ -117,6 +117,14 @@ impl BlockDecoder {
             section.compressed_size
         );
 
+        // A block must not regenerate more than the maximum block size, and the literals are part of that
+        if section.regenerated_size > MAX_BLOCK_SIZE {
+            return Err(DecompressBlockError::LiteralsTooLarge {
+                regenerated_size: section.regenerated_size as usize,
+                max: MAX_BLOCK_SIZE as usize,
+            });
+        }
+
         let upper_limit_for_literals = match section.compressed_size {
             Some(x) => x as usize,
             None => match section.ls_type {
